@@ -381,7 +381,7 @@ func (wk *worker) upload(run int, runDir, F string, count int, items []step) (ev
 		_, _ = x.ce.Write(encItemHeader(it.Kind == "dir", p))
 		// early = server bytes that were already there before this item was streamed
 		e := ev{"op": "upitem", "run": run, "i": i + 1, "path": it.Path, "kind": it.Kind, "size": it.Size, "cut": cut,
-			"act": -1, "off": -1, "ack": -1, "early": len(x.pending)}
+			"act": -1, "off": -1, "ack": -1, "early": len(x.pending), "unsent": false}
 		ok, st := x.need(2)
 		if !ok {
 			evs = append(evs, e)
@@ -441,6 +441,18 @@ func (wk *worker) upload(run int, runDir, F string, count int, items []step) (ev
 		if !ok {
 			status = "broken:" + st
 			break
+		}
+	}
+	if strings.HasPrefix(status, "broken:") {
+		// the server stopped answering while the client still had items: list them (up to a scripted cut, which
+		// the client never reached) so that the outcome can be judged against the whole streamed tree
+		for i := len(evs) - 1; i < len(items); i++ {
+			it := items[i]
+			if it.Cut != nil && *it.Cut >= 0 {
+				break
+			}
+			evs = append(evs, ev{"op": "upitem", "run": run, "i": i + 1, "path": it.Path, "kind": it.Kind, "size": it.Size, "cut": -1,
+				"act": -1, "off": -1, "ack": -1, "early": 0, "unsent": true})
 		}
 	}
 	if status == "" {
